@@ -32,5 +32,10 @@ public:
   static std::map<int, bool>& selstron(IPhreeqc* p) { return p->SelectedOutputStringOn; }
   static std::map<int, bool>& selfileon(IPhreeqc* p) { return p->SelectedOutputFileOnMap; }
   static std::map<int, std::string>& selfilename(IPhreeqc* p) { return p->SelectedOutputFileNameMap; }
+  static IPhreeqc* instance(int id) {
+    if (id < 0) return 0;
+    std::map<size_t, IPhreeqc*>::iterator it = IPhreeqc::Instances.find((size_t)id);
+    return it == IPhreeqc::Instances.end() ? 0 : it->second;
+  }
   static int get_input_errors(IPhreeqc* p) { return p->PhreeqcPtr->get_input_errors(); }
 };
